@@ -304,7 +304,24 @@ pub fn run(a: &Args) {
 			}
 		} else if choice < 96 {
 			// finalize_tx with something that is not a validly counter-signed reply to an own slate
-			let slate: Slate = match rng.below(8) {
+			let slate: Slate = match rng.below(9) {
+				8 => {
+					// a reply to the late-locked send fabricated by someone who holds its first slate: a throwaway key's
+					// public data and a partial signature that verifies, but no output - the transaction it would give
+					// does not balance, so this is not a valid counter-signature of the victim's transaction
+					let mut s = late_s1.clone().unwrap_or_else(|| Slate::blank(2, false));
+					let kc = <grin_keychain::ExtKeychain as grin_keychain::Keychain>::from_seed(&[0x77u8; 32], true).unwrap();
+					s.tx = Some(Slate::empty_transaction());
+					let mut ctx = grin_wallet_libwallet::Context::new(grin_keychain::Keychain::secp(&kc), &<grin_keychain::ExtKeychain as grin_keychain::Keychain>::derive_key_id(2, 0, 0, 0, 0), false, false);
+					let _ = s.fill_round_1(&kc, &mut ctx);
+					let _ = s.fill_round_2(&kc, &ctx.sec_key, &ctx.sec_nonce);
+					let _ = s.remove_other_sigdata(&kc, &ctx.sec_nonce, &ctx.sec_key);
+					s.amount = 0;
+					s.fee_fields = grin_core::core::FeeFields::zero();
+					s.state = grin_wallet_libwallet::SlateState::Standard2;
+					rep.count("hostile-finalize:fabricated-reply-to-the-late-locked-send(throwaway-key)");
+					s
+				}
 				5 => {
 					// the victim's late-locked S1 echoed back as if it were a reply
 					let mut s = late_s1.clone().unwrap_or_else(|| Slate::blank(2, false));
